@@ -25,7 +25,7 @@ func TestC19(t *testing.T) {
 		defer simkit.Watch(300*time.Second, "C19 run")()
 		simkit.Guard(func() {
 			phantoms := 0
-			runHonest(t, runCfg{prop: "C19", opts: chainsim.WorldOpts{Nodes: [2]int{3, 6}, Validators: [2]int{4, 9}, Byzantine: simkit.Bool(t, "byzantine"), ValidatorChanges: true, NetFaults: true, RPCFaults: true, SmallCache: true, StandardThresholds: true},
+			runHonest(t, runCfg{prop: "C19", opts: chainsim.WorldOpts{Nodes: [2]int{3, 6}, Transactions: true, Validators: [2]int{4, 9}, Byzantine: simkit.Bool(t, "byzantine"), ValidatorChanges: true, NetFaults: true, RPCFaults: true, SmallCache: true, StandardThresholds: true},
 				faults: chainsim.FaultPlan{Partitions: true, Crashes: true, Skew: true, LongOutage: true}, blocks: [2]int{15, 90},
 				tail: func(w *chainsim.World, m *chainsim.Monitor, adv *chainsim.Adversary) { quietTail(t, w, m, adv) }},
 				func(w *chainsim.World, m *chainsim.Monitor) {
